@@ -750,7 +750,7 @@ Section OneBatchCount.
     count s' u + len (of_uid u (concat (map (rows_of (dirs s)) dr)))
     = count s u + len (of_uid u (batch_rows (dirs s) b)).
   Proof.
-    unfold count. pose proof (len_perm _ _ (of_uid_perm u _ _ obc_perm)) as H.
+    rewrite !count_typed. pose proof (len_perm _ _ (of_uid_perm u _ _ obc_perm)) as H.
     rewrite !of_uid_app, !len_app in H. change (mem_rows s') with (mem_rows s). lia.
   Qed.
 
@@ -928,7 +928,7 @@ Proof.
       intros [H|[H|H]]; auto. right. apply batch_rows_in in H as (_ & i & _ & H).
       eapply rows_of_in_all, H.
     + rewrite Hm0, Hs0, app_nil_r. exact Hk.
-  - intros u. unfold count. rewrite Hm1, Hm0, Hs1, Hs0, of_uid_app, !len_app. lia.
+  - intros u. rewrite !count_typed. rewrite Hm1, Hm0, Hs1, Hs0, !of_uid_app, !len_app. lia.
 Qed.
 
 (** without the restart the leftover directory is not read at all *)
@@ -944,7 +944,7 @@ Proof.
   { unfold seg_rows, scanned_dirs. change (live s1) with (live s). change (inflight s1) with (inflight s).
     change (dirs s1) with (dirs (cp_write s b)). rewrite (cp_write_dirs_fresh _ _ Hf), filter_app.
     cbn [filter sid]. apply memb_false in Hl, Hi. rewrite Hl, Hi. cbn [orb]. rewrite app_nil_r. reflexivity. }
-  intros u. unfold select, scan, count. rewrite E. split; reflexivity.
+  intros u. rewrite !count_typed. unfold select, scan. rewrite E. split; reflexivity.
 Qed.
 
 (** * Flush-only histories reach well-formed states *)
@@ -1257,7 +1257,7 @@ Proof.
   apply andb_true_iff in H as [H1 H2]. split; [apply batch_pre_b_sound, H1 | apply IH, H2].
 Qed.
 
-(** Known finding CountAfterPartialDrainOrInMemory.  Capacity 2: segment 0 holds
+(** Known finding CountAfterPartialDrain.  Capacity 2: segment 0 holds
     types {0,1}, segment 1 holds type 0 only.  With k = 2 the policy plans the batch
     [0;1] -> 10000 for type 0.  Segment 1 is drained; segment 0 stays live for type 1
     and keeps the files of type 0: COUNT for type 0 goes from 3 to 4, the selection
